@@ -130,6 +130,9 @@ void point(const char* site, const void* addr = nullptr);
 // has passed. Returns true if pred() held when the thread was resumed.
 bool block_until(const std::function<bool()>& pred, i64 deadline_ns, const char* what);
 void sleep_ns(i64 ns);
+// the wall clock (system_clock) is stepped by delta (an NTP step, a date set by hand, a VM resume); the monotonic clock is not
+void step_wall_clock(i64 delta_ns);
+i64 wall_offset_ns();
 // Block until every other live thread waits, without a deadline, for something that has not happened yet (or the
 // time-out passes). Lets a harness act "once the system has gone quiet" under thread stalls of any length.
 bool quiesce(i64 timeout_ns);
